@@ -12,9 +12,9 @@ EXTENDS TSolver, Sat, Json, IOUtils
 Tr == ndJsonDeserialize(IOEnv.TRACE)
 VARIABLES tt, l, viol, memo, theory, okLen, stale
 \* memo: set of literals (as <<atom, polarity>> pairs) -> first definitive complete verdict
-\* okLen: length of the prefix of the stack that has passed a check; stale: after an inconsistency the
-\*   backtrack kept literals that were asserted after the last successful check (CDCL never does that:
-\*   it checks once per decision level and backjumps below the conflict level).  stale only labels
+\* okLen: length of the prefix of the stack that has passed a check; stale: some backtrack kept
+\*   literals that were asserted after the last successful check (THandler never does that: it checks
+\*   right after every batch of assertions and a conflict removes the whole batch).  stale only labels
 \*   violation records, for the attribution of a known finding.
 vars == <<stack, bad, hist, tt, l, viol, memo, theory, okLen, stale>>
 Ev == Tr[l]
@@ -71,7 +71,7 @@ TrPop ==
   /\ Ev.e = "pop" /\ l' = l + 1 /\ UNCHANGED <<tt, theory, memo>>
   /\ PopLegal(Ev.n) /\ PopEff(Ev.n)
   /\ okLen' = IF Len(stack) - Ev.n < okLen THEN Len(stack) - Ev.n ELSE okLen
-  /\ stale' = (stale \/ (bad /\ Len(stack) - Ev.n > okLen))
+  /\ stale' = (stale \/ Len(stack) - Ev.n > okLen)
   /\ Note({})
 
 Next == l <= Len(Tr) /\ (TrFam \/ TrReset \/ TrAssert \/ TrCheck \/ TrExpl \/ TrDeduce \/ TrPop)
